@@ -65,8 +65,8 @@
                           FlTotR FlTotW (total -= n) FlLen (len(outbufs) > 1) FlPop
      handler_thread()     WAcqD (A Dl; `while not queue` test; popleft) WWait
                           WParked (wake-up: needs a notify) WRelD
-     service()            WSvReq (requests[0]) WSvConn (R connected; the task runs:
-                          AppCall)  per write_soon: WWsConn WWsAcq WWsHw WWsConn2
+     service()            WSvReq (requests[0]) WSvConn (R connected) WSvWc (R will_close; the task
+                          runs: AppCall)  per write_soon: WWsConn WWsAcq WWsHw WWsConn2
                           WWsRot (outbufs.append(new buffer)) WWsApp WWsTotR WWsTotW
                           WWsChk (R total >= send_bytes) WWsFl WWsChk2 WWsTrig WWsRel
                           close branch: WCbAcq WCbCwf WCbReq WCbClr WCbRel
@@ -176,7 +176,7 @@ Inductive iopc :=
 
 Inductive wkpc :=
 | WAcqD | WWait | WParked | WRelD
-| WSvReq | WSvConn
+| WSvReq | WSvConn | WSvWc
 | WWsConn | WWsAcq | WWsHw | WWsConn2 | WWsRelX | WWsRot | WWsApp | WWsTotR | WWsTotW (tmp : Z)
 | WWsChk | WWsFl (f : flst) | WWsExcW | WWsChk2 | WWsTrig | WWsRel
 | WCbAcq | WCbCwf | WCbReq | WCbClr | WCbRel
@@ -608,11 +608,14 @@ Definition wk_step (me : nat) (s : shared) (w : wkst) (e : env) : option (shared
       | id :: _ => Some (set_starts s (starts s ++ [id]),
                          {| wpc := WSvConn; w_cur := id; w_idx := 0; w_off := 0; w_close := false |}, [LR ARequests])
       end
-  | WSvConn =>
-      if connected s then
-        Some (set_prod (set_execs s (execs s ++ [w_cur w])) (produced s) (units s ++ [UResp (w_cur w) 0]),
-              wk_next_write w 0 0, [LR AConnected])
+  | WSvConn =>    (* `if self.connected and not self.will_close:` (64d926d) *)
+      if connected s then Some (s, goto WSvWc, [LR AConnected])
       else Some (s, {| wpc := WCbAcq; w_cur := w_cur w; w_idx := 0; w_off := 0; w_close := true |}, [LR AConnected])
+  | WSvWc =>
+      if will_close s then Some (s, {| wpc := WCbAcq; w_cur := w_cur w; w_idx := 0; w_off := 0; w_close := true |}, [LR AWillClose])
+      else
+        Some (set_prod (set_execs s (execs s ++ [w_cur w])) (produced s) (units s ++ [UResp (w_cur w) 0]),
+              wk_next_write w 0 0, [LR AWillClose])
   (* write_soon(data), data = the w_idx-th write of the task *)
   | WWsConn => Some (s, if connected s then goto WWsAcq else {| wpc := WCbAcq; w_cur := w_cur w; w_idx := w_idx w; w_off := w_off w; w_close := true |}, [LR AConnected])
   | WWsAcq => if free (olock s) then Some (set_olock s (Some t), goto WWsHw, [LAcq Ob]) else None
